@@ -1,6 +1,6 @@
 """MIR-level inlining of helper functions the rules do not know by name.
 
-The rule modules anchor on the functions of the pinned tree (engine/pdsa/baseline_fns.json: their keys).  A refactoring that
+The rule modules anchor on the functions of the pinned tree (engine/pdsa/baseline.json: their keys and signatures).  A refactoring that
 extracts a private helper (`fn find_cluster_start(&self, ..)`, `fn kick_random_slot(..)`) moves loops, guards and writes out of
 the anchored function; to keep the rules looking at the same code, every call to a crate-local function that is NOT in the
 baseline list is replaced by the callee's body (locals and blocks renumbered, arguments and return value passed through fresh
@@ -10,16 +10,17 @@ import copy
 import json
 import os
 
-BASELINE = os.path.join(os.path.dirname(os.path.abspath(__file__)), "baseline_fns.json")
+BASELINE = os.path.join(os.path.dirname(os.path.abspath(__file__)), "baseline.json")
 MAX_CALLEE_BLOCKS = 120
 MAX_CALLER_BLOCKS = 900
 
 
 def load_baseline():
+    """{"fns": {key: {inputs, ret_ty, kind, arg_count, args}}, "adts": {key: [[field, type], ..]}} of the reviewed tree, or None"""
     if not os.path.exists(BASELINE):
         return None
     with open(BASELINE) as f:
-        return set(json.load(f))
+        return json.load(f)
 
 
 import re
